@@ -96,7 +96,7 @@ func plan(tier string, seed int64) []run.Batch {
 		}
 	}
 	if tier == "thorough" {
-		add("seq", 15, 200) // 3000 sequences
+		add("seq", 10, 240) // 2400 sequences of about 45 operations
 		add("keyreuse", 12, 4)
 		add("conc", 10, 8)
 	} else {
@@ -1783,7 +1783,7 @@ func runSequence(b run.Batch, r *ev.Result, rng *rand.Rand, n int) bool {
 			w.rotate()
 		}
 	}
-	nOps := 14 + rng.Intn(14)
+	nOps := 10 + rng.Intn(12)
 	for i := 0; i < nOps && !w.stop; i++ {
 		switch p := rng.Intn(100); {
 		case p < 12:
